@@ -177,6 +177,15 @@ def run(repo, chk):
         if isinstance(s, ast.Assign) and isinstance(s.targets[0], ast.Name) and s.targets[0].id in names:
             names[s.targets[0].id] = unparse(s.value)
     chk.expect(set(names.values()) == {"link.start_node_name", "link.end_node_name"}, "R-C09-1", "graph end points are the link's start and end node", loc(ig, loop0), found=names)
+    # the graph has one row per node: its shape is given, not inferred from the largest node id that has a link
+    mk = [c for c in calls(ig) if (call_name(c) or "").endswith("csr_matrix")]
+    if not mk:
+        raise ExtractError("_initialize_internal_graph: csr_matrix construction not found")
+    shp = [k for k in mk[0].keywords if k.arg == "shape"]
+    chk.expect(bool(shp) and unparse(shp[0].value).replace(" ", "") in ("(self._wn.num_nodes,self._wn.num_nodes)", "(len(self._node_name_to_id),len(self._node_name_to_id))"), "R-C09-1",
+               "the connectivity matrix is built with an explicit shape of num_nodes x num_nodes", loc(ig, mk[0]),
+               "csr_matrix((vals, (rows, cols))) infers its shape from the largest linked node id: a junction without links that happens to be the last node makes indptr too short "
+               "and the simulator raises IndexError instead of reporting it isolated", expected="shape=(num_nodes, num_nodes)", found=norm(mk[0]))
     # parallel links: shared entry reset to 0, then 1 if any link is not Closed (init and update)
     for fn, label in ((ig, "initial graph"), (ug, "graph update")):
         ok = False
@@ -332,13 +341,22 @@ def run(repo, chk):
         # a path on which the flag is not forced False may be taken by an isolated element: the zero must be stored there
         if ctx == "wn.junctions()" and forced("node._is_isolated", conds) is not False:
             n_iso += 1
-            for fld in ("node._head", "node._demand", "node._pressure", "node._leak_demand"):
+            for fld in ("node._demand", "node._pressure", "node._leak_demand"):
                 key = (ctx, fld, str(finals.get(fld)))
                 if key in seen:
                     continue
                 seen.add(key)
                 chk.expect(finals.get(fld) == 0, "R-C09-4", "an isolated junction reports %s = 0 on every path" % fld.split(".")[1], loc(sfn),
                            "path %s (not excluded for an isolated junction)" % sorted(conds.items()), expected=0, found=finals.get(fld, "<not stored>"))
+            # the head that goes with zero pressure is the elevation; a datum-dependent constant (e.g. 0) is read as a real head by the
+            # status rules of check valves, pumps and tank re-opening, which then never reconnect a part lying below datum 0
+            key = (ctx, "node._head", str(finals.get("node._head")))
+            if key not in seen:
+                seen.add(key)
+                chk.expect(finals.get("node._head") == "node.elevation", "R-C09-4", "an isolated junction is stored with the head of zero pressure (its elevation)", loc(sfn),
+                           "store_results_in_network stores a constant head for a cut-off junction; _CloseHeadPumpCondition / _OpenCVCondition / the tank re-open controls compare it with "
+                           "real heads: with all elevations lowered by 200 m a re-opened pump never reconnects and a dead end behind a check valve aborts the run",
+                           expected="node.elevation", found=finals.get("node._head", "<not stored>"))
         if ctx == "wn.links()" and forced("link._is_isolated", conds) is not False:
             n_lnk += 1
             key = (ctx, str(finals.get("link._flow")))
@@ -394,6 +412,20 @@ def run(repo, chk):
                    found="guards=%s registered=%s" % ([unparse(gd.test) for gd in guard], reg))
     chk.floor("R-C09-4", 5 + 8 + 4)
 
+    # ---------------------------------------------------------------- R-C09-5 a link created closed is closed in the first solve
+    # the graph (and every status rule) reads link.status, which follows _user_status: all three add_* siblings must start it from initial_status
+    MODEL = "wntr/network/model.py"
+    for meth in ("add_pipe", "add_pump", "add_valve"):
+        fn = repo.func(MODEL, "LinkRegistry." + meth)
+        chk.fn(fn)
+        us = [a for a in walk(fn) if isinstance(a, ast.Assign) and isinstance(a.targets[0], ast.Attribute) and a.targets[0].attr == "_user_status"]
+        okus = bool(us) and all("initial_status" in unparse(a.value) for a in us)
+        chk.expect(okus, "R-C09-5", "LinkRegistry.%s starts the link's run-time status from initial_status" % meth, loc(fn),
+                   "the element keeps the constructor default (Opened / Active) until reset_initial_values: a pump or valve created with initial_status='CLOSED' is simulated open and the "
+                   "junctions behind it are served instead of zeroed (add_pipe sets _user_status, its siblings must too)", expected="<link>._user_status = initial_status",
+                   found=[norm(a) for a in us])
+    chk.floor("R-C09-5", 3)
+
 
 WITNESSES = [
     dict(name="pair-list-outlet-only", file=CORE, old="                for link_name in self._wn.get_links_for_node(from_node_name):\n                    link = self._wn.get_link(link_name)\n                    if link.start_node_name == to_node_name or link.end_node_name == to_node_name:",
@@ -411,6 +443,9 @@ WITNESSES = [
     dict(name="cpp-follows-closed-entries", file=CPP, old="if (val == 1)", new="if (val >= 0)", rule="R-C09-2"),
     dict(name="old-link-flags-not-cleared", file=CORE, old="        for l in self._prev_isolated_links:\n            link = self._wn.get_link(l)\n            link._is_isolated = False\n", new="", rule="R-C09-3"),
     dict(name="links-of-isolated-junction-not-flagged", file=CORE, old="                link._is_isolated = True\n                isolated_links.add(l)", new="                isolated_links.add(l)", rule="R-C09-3"),
-    dict(name="isolated-junction-keeps-demand", file=HYD, old="            node._head = 0\n            node._demand = 0\n", new="            node._head = 0\n", rule="R-C09-4"),
+    dict(name="isolated-junction-keeps-demand", file=HYD, old="            node._head = node.elevation\n            node._demand = 0\n", new="            node._head = node.elevation\n", rule="R-C09-4"),
+    dict(name="isolated-junction-head-zero", file=HYD, old="            node._head = node.elevation\n", new="            node._head = 0\n", rule="R-C09-4"),
+    dict(name="graph-shape-inferred", file=CORE, old=", shape=(self._wn.num_nodes, self._wn.num_nodes))", new=")", rule="R-C09-1"),
+    dict(name="pump-created-closed-starts-open", file="wntr/network/model.py", old="        pump._user_status = pump.initial_status  # as add_pipe: a link starts in its initial status\n", new="", rule="R-C09-5"),
     dict(name="isolated-link-keeps-flow", file=HYD, old="        if link._is_isolated:\n            link._flow = 0", new="        if link._is_isolated and link.status == 0:\n            link._flow = 0", rule="R-C09-4"),
 ]
